@@ -975,7 +975,7 @@ def check_grid_search(model, grid, param_map, outputs, vectorize=True, permute=F
         g.index = as_frame                      # a non-default index (sorted / shuffled / filtered table)
     try:
         res, table = grid_search(circuit_template=tpl, param_grid=g if as_frame is not None else dict(grid), param_map=param_map,
-                                 step_size=dt, simulation_time=T, outputs=dict(outputs), inputs=dict(inputs) if inputs else None,
+                                 step_size=dt, simulation_time=T, outputs=dict(outputs), inputs={k_: np.asarray(v_, dtype=float) for k_, v_ in inputs.items()} if inputs else None,
                                  permute_grid=permute, vectorize=vectorize, solver="euler", verbose=False, clear=True,
                                  float_precision="float64")
     except Exception as exn:
@@ -986,7 +986,7 @@ def check_grid_search(model, grid, param_map, outputs, vectorize=True, permute=F
     if n_rows != expected_rows:
         return [dict(clause="grid_search: one result per row of the (linearised / permuted) grid", observed=n_rows, expected=expected_rows)]
     seen_values = set()
-    for cname in table.index:
+    for i_row, cname in enumerate(table.index):
         row = {k: float(table.loc[cname, k]) for k in table.columns}
         seen_values.add(tuple(sorted(row.items())))
         m2 = model
@@ -1008,7 +1008,8 @@ def check_grid_search(model, grid, param_map, outputs, vectorize=True, permute=F
             per_var = {}
             for path, arr in inputs.items():
                 for tp in expand_path(m2, path):
-                    per_var[tp] = np.asarray(arr, dtype=float)
+                    a_ = np.asarray(arr, dtype=float)
+                    per_var[tp] = a_[:, i_row] if a_.ndim == 2 else a_         # a 2-D input: one column per grid row, in row order
         _, ref = mdl.spec_fixed_step(m2, T, dt, dt, "euler", inputs=per_var)
         for key, path in outputs.items():
             for target in expand_path(model, path):
